@@ -337,11 +337,17 @@ func (d *Doc) Test(a string, t NodeTest, y Node) *sym.Term {
 	} else {
 		nameV, pfxV, uriV = d.Name[y.S], d.Pfx[y.S], d.URI[y.S]
 	}
-	ni := indexOf(d.Names, t.Name)
-	if ni < 0 {
-		return c.F
+	var local *sym.Term
+	if t.Name == "*" && t.Prefix != "" {
+		// NCName:* — every node of the principal type in that namespace
+		local = c.T
+	} else {
+		ni := indexOf(d.Names, t.Name)
+		if ni < 0 {
+			return c.F
+		}
+		local = c.Eq(nameV, d.k(ni))
 	}
-	local := c.Eq(nameV, d.k(ni))
 	var qual *sym.Term
 	if t.Prefix != "" && d.NSMap != nil && d.HasURI {
 		u, ok := d.NSMap[t.Prefix]
@@ -894,28 +900,24 @@ func (d *Doc) NodeStr(i int) []StrCase {
 	return out
 }
 
-// NormReplacement: the reference rewriting of an XPath replacement string for
-// Go's regexp: $N (the longest digit run naming an existing group) becomes ${N}.
+// NormReplacement: the reference reading of an XPath replacement string written for
+// Go's regexp: $N refers to group N, N being the longest run of digits that is a
+// group number (0 = the whole match; a single digit beyond the last group names a
+// group that does not exist); every reference becomes ${N}.
 func NormReplacement(r string, groups int) string {
 	out := ""
 	i := 0
 	for i < len(r) {
 		if r[i] == '$' && i+1 < len(r) && r[i+1] >= '0' && r[i+1] <= '9' {
-			best, bestEnd, n := -1, -1, 0
-			for j := i + 1; j < len(r) && r[j] >= '0' && r[j] <= '9'; j++ {
+			n := int(r[i+1] - '0')
+			j := i + 2
+			for j < len(r) && r[j] >= '0' && r[j] <= '9' && n*10+int(r[j]-'0') <= groups {
 				n = n*10 + int(r[j]-'0')
-				if n >= 1 && n <= groups {
-					best, bestEnd = n, j+1
-				}
-				if n > groups {
-					break
-				}
+				j++
 			}
-			if best >= 0 {
-				out += "${" + strconv.Itoa(best) + "}"
-				i = bestEnd
-				continue
-			}
+			out += "${" + strconv.Itoa(n) + "}"
+			i = j
+			continue
 		}
 		out += r[i : i+1]
 		i++
